@@ -69,6 +69,8 @@ def case_sig(row, variants):
     s = "kind=%s path=%s" % (c["kind"], generic_path(c["p"]))
     if c["kind"] in ("ph", "emb"):
         s += " src=%s set=%d" % (c["src"], int(c["set"]))
+    if c["kind"] == "unknown":
+        s += " value=%s" % c["src"]
     if c["kind"] == "phadv":
         s += " src=%s scenario=%d" % (c["src"], c["x"])
     if c["kind"] == "range":
@@ -182,10 +184,73 @@ def generate(d):
     return b, variants, vlib.read_ndjson(cases_p), report, (variants_p, cases_p, points_p)
 
 
+def overlapping_design():
+    out = {"states": 0, "transitions": 0}
+    r = vlib.tlc("ConfigDecodeConc", "ConfigDecodeConc_exh.cfg", workers=2, heap="1g", deadlock=False, timeout=600)
+    vlib.tlc_must_pass(r, "ConfigDecodeConc_exh")
+    out["states"], out["transitions"] = r.distinct, r.generated
+    vlib.tlc_must_fail(vlib.tlc("ConfigDecodeConc", "ConfigDecodeConc_neg_shared.cfg", workers=2, heap="1g", deadlock=False, timeout=600),
+                       "ConfigDecodeConc_neg_shared")
+    return out
+
+
+def overlapping_run(variants_p, d, thorough):
+    """G goroutines decode different plugin sections at the same time, in a race-detector build.  Returns (rows, path)."""
+    rb = vlib.harness_build(race=True)
+    obs = os.path.join(d, "conc.ndjson")
+    g, rounds = (8, 12) if thorough else (6, 3)
+    p = vlib.run_driver(rb, ["confdecode", "-mode", "conc", "-variants", variants_p, "-out", obs, "-goroutines", str(g), "-rounds", str(rounds)],
+                        timeout=1500, env={"GORACE": "halt_on_error=0 exitcode=0"})
+    rows = vlib.read_ndjson(obs)
+    if not [r_ for r_ in rows if r_["kind"] == "section"]:
+        raise vlib.MachineryError("no section was decoded concurrently")
+    reports = p.stderr.split("WARNING: DATA RACE")[1:]
+    first = ""
+    if reports:
+        first = " | ".join(ln.strip() for ln in reports[0].splitlines() if ln.strip() and ("()" in ln or ".go:" in ln))[:900]
+    rows.append({"kind": "race", "n": len(reports), "first": first})
+    vlib.write_ndjson(obs, rows)
+    return rows, obs, g, rounds
+
+
+def overlapping_validate(v, rows, obs):
+    tr = vlib.tlc("TraceConfigDecodeConc", "TraceConfigDecodeConc.cfg", env={"VERIF_TRACE": obs}, cont=True, workers=1, heap="2g",
+                  deadlock=False, timeout=900)
+    if tr.error:
+        raise vlib.MachineryError("TraceConfigDecodeConc failed: %s\n%s" % (tr.kind, tr.out[-3000:]))
+    if tr.distinct != len(rows) + 1:
+        raise vlib.MachineryError("TraceConfigDecodeConc visited %d states for %d lines" % (tr.distinct, len(rows)))
+    seen = set()
+    for inv, st in tr.all_violations:
+        try:
+            ln = int(st.get("l", "0"))
+        except ValueError:
+            continue
+        if not 1 <= ln <= len(rows):
+            continue
+        row = rows[ln - 1]
+        if row["kind"] == "race":
+            sig, what = "overlapping-decodes inv=NoRace", ("the race detector reports %d data race(s) while different config sections were "
+                                                           "decoded concurrently; first: %s" % (row["n"], row["first"]))
+        else:
+            sig = "overlapping-decodes kind=%s how=%s section=%s inv=%s" % (row["kind"], row.get("how", "-"), generic_path(row["pre"]), inv)
+            what = ("section %s of %s decoded %d times while other sections were being decoded: %d decodes failed (%s); distinct results read "
+                    "back: %s (invariant %s of TraceConfigDecodeConc)" % (path_s(row["pre"]), row["v"], row["n"], row["nerr"], row.get("err", "")[:200],
+                                                                        json.dumps(row.get("vectors", row.get("lefts")))[:600], inv))
+        if sig in seen:
+            continue
+        seen.add(sig)
+        v.violation(sig, what, replay_obj={"kind": "conc", "invariant": inv, "line": row}, replay_name="conc_%d_%s.json" % (ln, inv))
+    return tr
+
+
 def run(tier, v):
+    import time
+    t0 = time.time()
     thorough = tier == "thorough"
     d = vlib.scratch()
     b, variants, cases, report, (variants_p, cases_p, points_p) = generate(d)
+    vlib.log("generated %d cases at %.1fs" % (len(cases), time.time() - t0))
     # a base configuration the real code rejects / a documented map level that the real structs do not have
     for pt in vlib.read_ndjson(points_p):
         if pt["p"] and pt["p"][0] == "<base-config-rejected>":
@@ -194,6 +259,17 @@ def run(tier, v):
     for m in report["missing"]:
         v.violation("kind=level path=%s" % generic_path(m["p"]),
                     "documented map level %s (variant %s) does not exist in the real config structs" % (path_s(m["p"]), m["v"]))
+    # the overlapping-decodes family runs beside the sequential one (own binary, own TLC runs)
+    conc = {}
+
+    def conc_job():
+        try:
+            conc["design"] = overlapping_design()
+            conc["rows"], conc["obs"], conc["g"], conc["rounds"] = overlapping_run(variants_p, d, thorough)
+        except BaseException as ex:      # re-raised in the main thread
+            conc["exc"] = ex
+    conc_thread = threading.Thread(target=conc_job)
+    conc_thread.start()
     # design level (with the reflection points in the case space), negative controls in parallel
     states = trans = 0
     res = {}
@@ -203,15 +279,12 @@ def run(tier, v):
     ths = [threading.Thread(target=neg, args=(n,)) for n in NEGS]
     for t in ths:
         t.start()
-    r = vlib.tlc("ConfigDecodeMC", "ConfigDecode_exh.cfg", workers=4, heap="4g", deadlock=False, timeout=900,
-                 env={"VERIF_POINTS": points_p})
-    for t in ths:
-        t.join()
-    vlib.tlc_must_pass(r, "ConfigDecode_exh")
-    states += r.distinct
-    trans += r.generated
-    for n in NEGS:
-        vlib.tlc_must_fail(res[n], n)
+    def exh():
+        res["exh"] = vlib.tlc("ConfigDecodeMC", "ConfigDecode_exh.cfg", workers=4, heap="4g", deadlock=False, timeout=900,
+                              env={"VERIF_POINTS": points_p})
+    ths.append(threading.Thread(target=exh))
+    ths[-1].start()
+    vlib.log("design level started at %.1fs" % (time.time() - t0))
     if len(cases) != report["cases"]:
         raise vlib.MachineryError("case file has %d lines, TLC counted %d cases" % (len(cases), report["cases"]))
     # conformance
@@ -233,7 +306,24 @@ def run(tier, v):
             n_rec[k] = n_rec.get(k, 0) + 1
     if len(n_rec) != len(cases) or any(x != 2 for x in n_rec.values()):
         raise vlib.MachineryError("driver did not run every case in both map shapes (%d of %d)" % (len(n_rec), len(cases)))
+    vlib.log("driver done at %.1fs" % (time.time() - t0))
+    for t in ths:
+        t.join()
+    r = res["exh"]
+    vlib.tlc_must_pass(r, "ConfigDecode_exh")
+    states += r.distinct
+    trans += r.generated
+    for n in NEGS:
+        vlib.tlc_must_fail(res[n], n)
+
     tr = validate(v, obs, rows, variants, points_p)
+    vlib.log("trace validated at %.1fs" % (time.time() - t0))
+    conc_thread.join()
+    if "exc" in conc:
+        raise conc["exc"]
+    overlapping_validate(v, conc["rows"], conc["obs"])
+    states += conc["design"]["states"]
+    trans += conc["design"]["transitions"]
     kinds = {}
     for c in cases:
         kinds[c["c"]["kind"]] = kinds.get(c["c"]["kind"], 0) + 1
@@ -252,6 +342,10 @@ def run(tier, v):
                 "map[any]any with the recording registry; every %d-th also through the CLI reader and (non-placeholder, V1/V2) with the real "
                 "constructors; distinct_nontrivial = distinct abstract cases that carry a mutation (kind # none)" % stride,
         "cases_by_kind": kinds, "outcomes": outcomes,
+        "overlapping_decodes": {"goroutines": conc["g"], "passes": conc["rounds"],
+                                "sections": len([r_ for r_ in conc["rows"] if r_["kind"] == "section"]),
+                                "decodes": sum(r_.get("n", 0) for r_ in conc["rows"] if r_["kind"] != "race"),
+                                "races_reported": conc["rows"][-1]["n"]},
         "schema_leaves": {n: len(x["leaves"]) for n, x in variants.items()},
         "map_levels_documented": {n: len(x["spec_points"]) for n, x in variants.items()},
         "map_levels_only_found_by_reflection": [path_s(e["p"]) + "@" + e["v"] for e in report["extra"]],
@@ -270,6 +364,10 @@ def replay(path, v):
     obj = json.load(open(path))
     d = vlib.scratch()
     b, variants, cases, report, (variants_p, cases_p, points_p) = generate(d)
+    if obj.get("kind") == "conc":
+        rows, obs, g, rounds = overlapping_run(variants_p, d, False)
+        overlapping_validate(v, rows, obs)
+        return None
     line = obj["line"]
     one = os.path.join(d, "one_case.ndjson")
     vlib.write_ndjson(one, [{"c": line["c"], "delta": obj["delta"], "phval": obj["phval"], "adv": obj.get("adv") or {"src": "", "eol": "lf", "lines": [], "envs": [], "req": ""}}])
